@@ -5,6 +5,9 @@ V = os.path.dirname(os.path.dirname(os.path.abspath(__file__)))
 props = [json.loads(l) for l in open(os.path.join(V, "properties.jsonl"))]
 
 CHECKS = {
+ "C12": dict(category="exploration", technique="three-stage bootstrap (gcc-built S1, S2 built by S1, S3 built by S2) with exhaustive byte comparison of status/stdout/stderr/outputs over a closed corpus x option sets; repeated runs with ASLR off and a different environment",
+   text="Stage 2 and stage 3 are rebuilt from the working tree on every run. For every input of a closed corpus (the tree's sources, all test programs, valid and invalid seed programs, generated units of the C01/C07/C19 enumerators) and every option set, S1 and S2 must agree byte-for-byte in exit status, stdout, stderr and produced files, S3 must agree on the tree's own sources (fixpoint), and a second S1 run with ASLR disabled and a larger environment must reproduce the first.",
+   note="The statement quantifies over all inputs; the check decides it on a finite corpus, so a self-miscompilation must be exercised by one of the corpus inputs to be seen. Object files are compared after strip -g because the assembler records the working directory. __DATE__/__TIME__/__TIMESTAMP__ are neutralised as the property exempts them."),
  "C19": dict(category="exploration", technique="exhaustive enumeration of all ordered token pairs x adjacency constructions, re-lexed with an independent pp-token lexer; -E idempotence; -S(original) == -S(-E output) on a closed corpus",
    text="All 71x71 ordered pairs of a token alphabet covering every punctuator-prefix relation and every lexical class are made adjacent in 11 (thorough 16) ways the preprocessor can create adjacency; the -E text must re-lex to exactly the two tokens, -E of the -E output must be byte-identical, and for the tree's own sources, its test programs and ~970 generated operator-adjacency programs compiling the -E output must give the same assembly (modulo .loc/.file) as compiling the original.",
    note="Trusts the ~60-line pp-token lexer in models/pplex.py (C11 6.4, no digraphs); pp-numbers that are not valid constants are left to C09; the -S comparison is chibicc against itself."),
